@@ -18,6 +18,8 @@
 mod genx;
 #[path = "c05/graphx.rs"]
 mod graphx;
+#[path = "c05/implx.rs"]
+mod implx;
 
 use genx::*;
 use nitrogql_ast::{
@@ -60,6 +62,32 @@ struct Real {
     /// `DuplicateOriginal` of the resolver: (name_of_elem, name)
     dup: Option<(String, String)>,
     panic: Option<String>,
+    /// set when the check answers differently after every field WITHOUT an argument list got an EMPTY one
+    /// (`arguments: None` → `Some(ArgumentsDefinition { input_values: [] })`; the parser never builds that, the model
+    /// has one representation for both): (diagnostics before, after)
+    empty_args_diff: Option<(Vec<String>, Vec<String>)>,
+}
+
+/// every object / interface field without an argument list gets an empty one
+fn with_empty_argument_lists<'a>(doc: &TypeSystemDocument<'a>) -> TypeSystemDocument<'a> {
+    let mut d = doc.clone();
+    let fix = |fs: &mut Vec<rts::FieldDefinition<'a>>| {
+        for f in fs.iter_mut() {
+            if f.arguments.is_none() {
+                f.arguments = Some(rts::ArgumentsDefinition { input_values: vec![] });
+            }
+        }
+    };
+    for def in d.definitions.iter_mut() {
+        if let rts::TypeSystemDefinition::TypeDefinition(t) = def {
+            match t {
+                rts::TypeDefinition::Object(t) => fix(&mut t.fields),
+                rts::TypeDefinition::Interface(t) => fix(&mut t.fields),
+                _ => {}
+            }
+        }
+    }
+    d
 }
 
 fn walk_dirs(ds: &[RDirective], map: &mut HashMap<Key, Key>) {
@@ -130,7 +158,7 @@ fn run_real(texts: &[String]) -> Real {
             match parse_type_system_document(t) {
                 Ok(d) => docs.push(d),
                 Err(e) => {
-                    return Real { stage: "parse", diags: vec![diag_of_positioned("parse-schema", "ParseError", e.into())], merged: None, resolved: None, dup: None, panic: None }
+                    return Real { stage: "parse", diags: vec![diag_of_positioned("parse-schema", "ParseError", e.into())], merged: None, resolved: None, dup: None, panic: None, empty_args_diff: None }
                 }
             }
         }
@@ -148,7 +176,7 @@ fn run_real(texts: &[String]) -> Real {
                     dbg.split(&format!("{name}: \"")).nth(1).and_then(|r| r.split('"').next()).unwrap_or("").to_string()
                 };
                 let dup = if kind == "DuplicateOriginal" { Some((field("name_of_elem"), field("name"))) } else { None };
-                return Real { stage: "resolve", diags: vec![diag_of_positioned("resolve-schema", &kind, e.into())], merged: Some(merged_model), resolved: None, dup, panic: None };
+                return Real { stage: "resolve", diags: vec![diag_of_positioned("resolve-schema", &kind, e.into())], merged: Some(merged_model), resolved: None, dup, panic: None, empty_args_diff: None };
             }
         };
         let table = paren_table(&resolved);
@@ -168,11 +196,19 @@ fn run_real(texts: &[String]) -> Real {
             diags.push(d);
         }
         let resolved_model = from_real_tsdoc(&resolved);
-        Real { stage: "check", diags, merged: Some(merged_model), resolved: Some(resolved_model), dup: None, panic: None }
+        let key = |es: &[nitrogql_checker::CheckError]| -> Vec<String> {
+            let mut v: Vec<String> = es.iter().map(|e| { let d = diag_of_check("check-schema", e); format!("{} {} {} {} {}", d.kind, d.line, d.col, d.file, d.builtin) }).collect();
+            v.sort();
+            v
+        };
+        let errs2 = check_type_system_document(&with_empty_argument_lists(&resolved));
+        let (k1, k2) = (key(&errs), key(&errs2));
+        let empty_args_diff = if k1 != k2 { Some((k1, k2)) } else { None };
+        Real { stage: "check", diags, merged: Some(merged_model), resolved: Some(resolved_model), dup: None, panic: None, empty_args_diff }
     }));
     match r {
         Ok(x) => x,
-        Err(p) => Real { stage: "panic", diags: vec![], merged: None, resolved: None, dup: None, panic: Some(p) },
+        Err(p) => Real { stage: "panic", diags: vec![], merged: None, resolved: None, dup: None, panic: Some(p), empty_args_diff: None },
     }
 }
 
@@ -333,6 +369,8 @@ fn class_at(doc: &TsDoc, line: usize, col: usize, file: usize) -> String {
 struct Ctx<'a> {
     rep: &'a mut Report,
     drv: &'a mut Driver,
+    /// one entry per (stream, signature): the SMALLEST failing case seen so far (shrunk and reported by `flush`)
+    pending: Vec<(Fail, Case)>,
 }
 
 impl<'a> Ctx<'a> {
@@ -411,6 +449,15 @@ impl<'a> Ctx<'a> {
                     fails.push(Fail { stream: "K", signature: "dup-original".into(), what: format!("resolver DuplicateOriginal: code {:?} model {:?}", real.dup, model_dup) });
                 }
             }
+            if let Some((a, b)) = &real.empty_args_diff {
+                let only_a: Vec<&String> = a.iter().filter(|x| !b.contains(x)).collect();
+                let only_b: Vec<&String> = b.iter().filter(|x| !a.contains(x)).collect();
+                fails.push(Fail {
+                    stream: "K",
+                    signature: "check:empty-argument-list-equivalence".into(),
+                    what: format!("check_type_system_document distinguishes a field without an argument list from a field with an EMPTY one (the model has one representation): only without {:?}, only with empty lists {:?}", only_a, only_b),
+                });
+            }
             // ---- K: check_type_system_document -----------------------------------------------------------
             let mut valid = None;
             let mut rules: Vec<String> = vec![];
@@ -473,7 +520,7 @@ impl<'a> Ctx<'a> {
                             fails.push(Fail {
                                 stream: "O",
                                 signature: format!("complete:{}@{}{}", d.kind, generic, detail),
-                                what: format!("a schema that is valid under every rule of Spec/ValidTs gets {} diagnostic(s); first: {} at {}:{} (file {}): {}", real.diags.len(), d.kind, d.line, d.col, d.file, d.message),
+                                what: format!("rejected-valid: a schema that is valid under every rule of Spec/ValidTs gets {} diagnostic(s); first: {} at {}:{} (file {}): {}", real.diags.len(), d.kind, d.line, d.col, d.file, d.message),
                             });
                         }
                     } else if record {
@@ -587,6 +634,32 @@ impl<'a> Ctx<'a> {
                 break;
             }
         }
+        // second phase: single lines inside the remaining definitions (the canonical rendering puts one field / enum
+        // value / input field per line), so that the reported schema is the minimal one
+        let mut budget = 80;
+        for fi in 0..cur.files.len() {
+            let mut lines: Vec<String> = cur.files[fi].split('\n').map(|l| l.to_string()).collect();
+            let mut k = 0;
+            while k < lines.len() && budget > 0 {
+                let l = lines[k].trim();
+                if l.is_empty() || l == "}" || l.ends_with('{') {
+                    k += 1;
+                    continue;
+                }
+                let mut trial = lines.clone();
+                trial.remove(k);
+                let mut t = cur.clone();
+                t.files[fi] = trial.join("\n");
+                budget -= 1;
+                let fs = self.eval(std::slice::from_ref(&t), false).pop().unwrap_or_default();
+                if fs.iter().any(|f| f.stream == fail.stream && f.signature == fail.signature) {
+                    lines = trial;
+                    cur = t;
+                } else {
+                    k += 1;
+                }
+            }
+        }
         cur.files.retain(|f| !f.trim().is_empty());
         if cur.files.is_empty() {
             cur.files.push(String::new());
@@ -604,10 +677,26 @@ impl<'a> Ctx<'a> {
         let results = self.eval(cases, true);
         for (case, fails) in cases.iter().zip(results) {
             for f in fails {
-                let known = self.rep.failures.iter().any(|x| x.stream == f.stream && x.signature == f.signature);
-                let shown = if known { case.clone() } else { self.shrink(case, &f) };
-                self.rep.fail(f.stream, &f.signature, &f.what, shown.to_json());
+                let size = |c: &Case| c.files.iter().map(|t| t.len()).sum::<usize>();
+                match self.pending.iter_mut().find(|(x, _)| x.stream == f.stream && x.signature == f.signature) {
+                    Some(slot) => {
+                        self.rep.count(&format!("fail:{}:{}", f.stream, f.signature));
+                        if size(case) < size(&slot.1) {
+                            *slot = (f, case.clone());
+                        }
+                    }
+                    None => self.pending.push((f, case.clone())),
+                }
             }
+        }
+    }
+
+    /// of the failing inputs of one signature the smallest is shrunk and reported
+    fn flush(&mut self) {
+        let pending = std::mem::take(&mut self.pending);
+        for (f, case) in pending {
+            let shown = self.shrink(&case, &f);
+            self.rep.fail(f.stream, &f.signature, &f.what, shown.to_json());
         }
     }
 }
@@ -793,6 +882,30 @@ fn corpus() -> Vec<Case> {
             class: Some("cross-kind:object+union".into()),
             features: vec!["corpus".into(), "files:2".into()],
         },
+        // IsValidImplementation 2.c / 2.d over the shape of both sides: the interface field has no argument list / one /
+        // several arguments; the implementing field adds, drops, renames or retypes (seed follow-up m7)
+        m("interface Node { id: ID! }\ntype User implements Node { id(format: String!): ID! }\ntype Query { a: Int }\n", "iface-field-args", "object:no-arguments:extra-required-argument"),
+        m("interface Node { id: ID! }\ninterface Entity implements Node { id(a: Int, format: [String]!, b: Int = 1): ID! }\ntype Query { a: Int }\n", "iface-field-args", "interface:no-arguments:extra-required-argument"),
+        Case {
+            files: vec!["interface Node { id: ID! }\ntype User { id(format: String!): ID! own: Int }\ntype Query { a: Int }\n".into(), "extend type User implements Node\n".into()],
+            mode: "mutation".into(),
+            rule: Some("iface-field-args".into()),
+            class: Some("object:no-arguments:extra-required-argument-via-extension".into()),
+            features: vec!["corpus".into(), "files:2".into()],
+        },
+        Case {
+            files: vec!["interface Node { own: Int }\ninterface Entity implements Node { own: Int }\ntype Query { a: Int }\n".into(), "extend interface Node { id: ID! }\n".into(), "extend interface Entity { id(format: String!): ID! }\n".into()],
+            mode: "mutation".into(),
+            rule: Some("iface-field-args".into()),
+            class: Some("interface:no-arguments:extra-required-argument-via-extension".into()),
+            features: vec!["corpus".into(), "files:3".into()],
+        },
+        m("interface I { f(a: Int): Int }\ntype T implements I { f: Int }\ntype Query { a: Int }\n", "iface-field-args", "object:one-argument:argument-dropped-leaving-no-argument-list"),
+        m("interface I { f(a: Int, b: [String!]): Int }\ntype T implements I { f(b: [String!], a: Int, c: ID!): Int }\ntype Query { a: Int }\n", "iface-field-args", "object:several-arguments:extra-required-argument"),
+        m("interface I { f(a: Int, b: [String!]): Int }\ninterface J implements I { f(a: Int, b: [String]): Int }\ntype Query { a: Int }\n", "iface-field-args", "interface:several-arguments:argument-item-nullability-changed"),
+        m("interface I { f(a: Int! = 1): Int }\ntype T implements I { f(a: Int = 1): Int }\ntype Query { a: Int }\n", "iface-field-args", "object:one-argument:argument-made-nullable"),
+        v("interface I { f: Int g(a: Int! = 1): Int }\ntype T implements I { f(x: Int, y: [Int!]! = [1], z: String = null): Int g(a: Int!, o: Boolean): Int }\ntype Query { a: Int }\n"),
+        v("interface I { f(a: Int, b: [String!]! = []): Int }\ninterface M implements I { f(b: [String!]!, a: Int = 2, m: Int! = 1): Int }\ntype T implements M & I { f(m: Int! = 3, a: Int, b: [String!]! = [\"x\"], t: ID): Int! }\ntype Query { a: Int }\n"),
         // … and re-declaring a built-in directive stays allowed
         Case {
             files: vec!["directive @deprecated(reason: String = \"No longer supported\") on FIELD_DEFINITION | ARGUMENT_DEFINITION | INPUT_FIELD_DEFINITION | ENUM_VALUE\ndirective @skip(if: Boolean!) on FIELD | FRAGMENT_SPREAD | INLINE_FRAGMENT\ntype Query { a: Int @deprecated }\n".into()],
@@ -832,43 +945,27 @@ fn pair_cases(rng: &mut Rng, n: usize) -> Vec<Case> {
     out
 }
 
-fn main() {
-    let args = Args::parse();
-    quiet_panics();
-    let mut rep = Report::new(
-        "C05",
-        "type-system documents as 1-3 SDL files: valid-by-construction schemas (all seven kinds, extensions, interface chains/diamonds, directive definitions with arguments, applications at every location) and single-fault mutations labelled by rule; non-trivial = spec-confirmed case, distinct by (rule, position class) for mutations and by feature set for valid schemas",
-    );
-    let mut drv = Driver::spawn(&args.driver);
-    let mut ctx = Ctx { rep: &mut rep, drv: &mut drv };
+struct Budgets {
+    n_valid: usize,
+    n_redeclare: usize,
+    n_mut: usize,
+    n_junk: usize,
+    n_pairs: usize,
+    n_graph: usize,
+    n_impl: usize,
+}
 
-    if let Some(path) = &args.replay {
-        let v: Value = serde_json::from_str(&std::fs::read_to_string(path).expect("replay file")).expect("replay json");
-        let case = Case::from_json(&v["case"]);
-        let fails = ctx.eval(std::slice::from_ref(&case), true).pop().unwrap_or_default();
-        for f in fails {
-            ctx.rep.fail(f.stream, &f.signature, &f.what, case.to_json());
-        }
-        rep.write(&args);
-        return;
-    }
-
-    ctx.run(&corpus());
-
-    let mut rng = Rng::new(args.seed);
-    let search = args.extra.get("search").map_or(false, |s| s == "1");
-    let scale = if search { 3 } else { 1 };
-    let n_valid = args.budget(300, 4000) * scale;
-    let n_mut = args.budget(900, 12000) * scale;
-    let n_junk = args.budget(150, 2000) * scale;
-    let n_pairs = args.budget(300, 3000) * scale;
-    let n_graph = args.budget(480, 6000) * scale;
+/// one pass over all generated streams; `stop` is asked before every case (a `--search 1` run is cut by the clock)
+fn streams(ctx: &mut Ctx, rng: &mut Rng, b: &Budgets, stop: &dyn Fn() -> bool) {
 
     // ---- valid-by-construction ------------------------------------------------------------------
     let mut batch = vec![];
-    for k in 0..n_valid {
-        let (doc, mut features) = gen_valid(&mut rng, true);
-        let files = render_files(&mut rng, &doc, &mut features);
+    for k in 0..b.n_valid {
+        if stop() {
+            break;
+        }
+        let (doc, mut features) = gen_valid(rng, true);
+        let files = render_files(rng, &doc, &mut features);
         for f in &features {
             ctx.rep.count(&format!("feature:{f}"));
         }
@@ -886,15 +983,17 @@ fn main() {
     batch.clear();
 
     // ---- valid + verbatim re-declarations of built-in directives (allowed) --------------------------------
-    let n_redeclare = args.budget(120, 1500) * scale;
-    for k in 0..n_redeclare {
-        let (doc, mut features) = gen_valid(&mut rng, true);
+    for k in 0..b.n_redeclare {
+        if stop() {
+            break;
+        }
+        let (doc, mut features) = gen_valid(rng, true);
         let mut items = doc.items.clone();
-        let names = redeclare_builtin_directives(&mut rng, &mut items);
+        let names = redeclare_builtin_directives(rng, &mut items);
         for n in &names {
             features.insert(format!("redeclared:@{n}"));
         }
-        let files = render_files(&mut rng, &TsDoc { items }, &mut features);
+        let files = render_files(rng, &TsDoc { items }, &mut features);
         ctx.rep.count("valid-redeclare");
         for n in &names {
             ctx.rep.count(&format!("feature:redeclared:@{n}"));
@@ -913,18 +1012,21 @@ fn main() {
     batch.clear();
 
     // ---- single-fault mutations -----------------------------------------------------------------
-    for k in 0..n_mut {
-        let (doc, mut features) = gen_valid(&mut rng, false);
+    for k in 0..b.n_mut {
+        if stop() {
+            break;
+        }
+        let (doc, mut features) = gen_valid(rng, false);
         let mut items = doc.items.clone();
         let rule = RULES[k % RULES.len()];
-        let class = match mutate(&mut rng, &mut items, rule) {
+        let class = match mutate(rng, &mut items, rule) {
             Some(c) => c,
             None => {
                 ctx.rep.count(&format!("mutation-no-place:{rule}"));
                 continue;
             }
         };
-        let files = render_files(&mut rng, &TsDoc { items }, &mut features);
+        let files = render_files(rng, &TsDoc { items }, &mut features);
         ctx.rep.count(&format!("mutation:{rule}"));
         let case = Case { files, mode: "mutation".into(), rule: Some(rule.into()), class: Some(class), features: features.into_iter().collect() };
         if k < 2 {
@@ -940,8 +1042,11 @@ fn main() {
     batch.clear();
 
     // ---- several faults at once (K only) --------------------------------------------------------
-    for _ in 0..n_junk {
-        let (doc, mut features) = gen_valid(&mut rng, true);
+    for _ in 0..b.n_junk {
+        if stop() {
+            break;
+        }
+        let (doc, mut features) = gen_valid(rng, true);
         let mut items = doc.items.clone();
         let n = 2 + rng.below(4);
         for _ in 0..n {
@@ -949,9 +1054,9 @@ fn main() {
             if rule == "dup-type-defs" && !rng.chance(1, 6) {
                 continue;
             }
-            let _ = mutate(&mut rng, &mut items, rule);
+            let _ = mutate(rng, &mut items, rule);
         }
-        let files = render_files(&mut rng, &TsDoc { items }, &mut features);
+        let files = render_files(rng, &TsDoc { items }, &mut features);
         ctx.rep.count("junk:multi-fault");
         batch.push(Case { files, mode: "junk".into(), rule: None, class: None, features: features.into_iter().collect() });
         if batch.len() >= 100 {
@@ -963,20 +1068,26 @@ fn main() {
     batch.clear();
 
     // ---- covariance pairs -----------------------------------------------------------------------
-    let pairs = pair_cases(&mut rng, n_pairs);
+    let pairs = pair_cases(rng, b.n_pairs);
     for c in &pairs {
         ctx.rep.count(&format!("feature:{}", c.features[0]));
     }
     for chunk in pairs.chunks(100) {
+        if stop() {
+            break;
+        }
         ctx.run(chunk);
     }
 
     // ---- graph-shaped gadgets: implements graph, directive reference graph, input-object nesting --------
     // (chains / diamonds / DAGs = valid; cycles, lassos, deep omissions, deep literal faults = one fault)
-    for k in 0..n_graph {
+    for k in 0..b.n_graph {
+        if stop() {
+            break;
+        }
         let family = graphx::FAMILIES[k % graphx::FAMILIES.len()];
         let faulty = (k / graphx::FAMILIES.len()) % 3 != 0;
-        let g = match graphx::gen_gadget(&mut rng, family, faulty) {
+        let g = match graphx::gen_gadget(rng, family, faulty) {
             Some(g) => g,
             None => {
                 ctx.rep.count(&format!("graph-no-place:{family}"));
@@ -987,15 +1098,15 @@ fn main() {
         let (mut items, mut features) = if rng.chance(1, 3) {
             (vec![obj("Query", &[], vec![fd("q", Ty::named("Int"))])], BTreeSet::new())
         } else {
-            let (doc, f) = gen_valid(&mut rng, !faulty);
+            let (doc, f) = gen_valid(rng, !faulty);
             (doc.items, f)
         };
-        place_gadget(&mut rng, &mut items, &g);
+        place_gadget(rng, &mut items, &g);
         for f in &g.features {
             features.insert(f.clone());
         }
         let doc = TsDoc { items };
-        let files = if rng.chance(1, 3) { render_files_ext_elsewhere(&mut rng, &doc, &mut features) } else { render_files(&mut rng, &doc, &mut features) };
+        let files = if rng.chance(1, 3) { render_files_ext_elsewhere(rng, &doc, &mut features) } else { render_files(rng, &doc, &mut features) };
         for f in &g.features {
             ctx.rep.count(&format!("feature:{f}"));
         }
@@ -1016,5 +1127,128 @@ fn main() {
     ctx.run(&batch);
     batch.clear();
 
+    // ---- interface implementations: IsValidImplementation 2.c / 2.d over the shape of both sides (c05/implx.rs) --------
+    // half valid (must get no diagnostic), half one fault of rule `iface-field-args`; gadget next to a root type / inside a
+    // full generated schema, or an operator applied to an implementing field the generated schema already has
+    for k in 0..b.n_impl {
+        if stop() {
+            break;
+        }
+        let faulty = k % 2 == 1;
+        let mut features: BTreeSet<String> = BTreeSet::new();
+        let mut items: Vec<TsItem>;
+        let class: String;
+        let mode = rng.below(4);
+        let mut done = None;
+        if mode == 0 {
+            let (doc, f) = gen_valid(rng, !faulty);
+            let mut its = doc.items;
+            if let Some((c, fs)) = implx::mutate_existing_pair(rng, &mut its, faulty) {
+                features = f;
+                features.extend(fs);
+                done = Some((its, c));
+            }
+        }
+        match done {
+            Some((its, c)) => {
+                items = its;
+                class = c;
+            }
+            None => {
+                let g = implx::impl_gadget(rng, faulty);
+                if mode == 1 {
+                    items = vec![obj("Query", &[], vec![fd("q", Ty::named("Int"))])];
+                } else {
+                    let (doc, f) = gen_valid(rng, !faulty);
+                    items = doc.items;
+                    features = f;
+                }
+                place_gadget(rng, &mut items, &g);
+                features.extend(g.features.iter().cloned());
+                class = g.class;
+            }
+        }
+        for f in features.iter().filter(|f| f.starts_with("impl:")) {
+            ctx.rep.count(&format!("feature:{f}"));
+        }
+        {
+            let get = |p: &str| features.iter().find(|f| f.starts_with(p)).map(|f| f[p.len()..].to_string()).unwrap_or_default();
+            ctx.rep.count(&format!("implementation-case:{}:{}:{}", if features.contains("impl:object") { "object" } else { "interface" }, get("impl:shape:"), get("impl:op:")));
+        }
+        let doc = TsDoc { items };
+        let files = if rng.chance(1, 3) { render_files_ext_elsewhere(rng, &doc, &mut features) } else { render_files(rng, &doc, &mut features) };
+        ctx.rep.count(&format!("implementation:{}", if faulty { "fault" } else { "valid" }));
+        let case = if faulty {
+            Case { files, mode: "mutation".into(), rule: Some("iface-field-args".into()), class: Some(class), features: features.into_iter().collect() }
+        } else {
+            Case { files, mode: "valid".into(), rule: None, class: None, features: features.into_iter().collect() }
+        };
+        if k < 2 {
+            ctx.rep.sample(json!({"mode": case.mode, "rule": case.rule, "class": case.class, "files": case.files}));
+        }
+        batch.push(case);
+        if batch.len() >= 100 {
+            ctx.run(&batch);
+            batch.clear();
+        }
+    }
+    ctx.run(&batch);
+    batch.clear();
+}
+
+fn main() {
+    let args = Args::parse();
+    quiet_panics();
+    let mut rep = Report::new(
+        "C05",
+        "type-system documents as 1-3 SDL files: valid-by-construction schemas (all seven kinds, extensions, interface chains/diamonds, directive definitions with arguments, applications at every location) and single-fault mutations labelled by rule; non-trivial = spec-confirmed case, distinct by (rule, position class) for mutations and by feature set for valid schemas",
+    );
+    let mut drv = Driver::spawn(&args.driver);
+    let mut ctx = Ctx { rep: &mut rep, drv: &mut drv, pending: vec![] };
+
+    if let Some(path) = &args.replay {
+        let v: Value = serde_json::from_str(&std::fs::read_to_string(path).expect("replay file")).expect("replay json");
+        let case = Case::from_json(&v["case"]);
+        let fails = ctx.eval(std::slice::from_ref(&case), true).pop().unwrap_or_default();
+        for f in fails {
+            ctx.rep.fail(f.stream, &f.signature, &f.what, case.to_json());
+        }
+        rep.write(&args);
+        return;
+    }
+
+    ctx.run(&corpus());
+
+    let mut rng = Rng::new(args.seed);
+    // `--search 1` is the second run `./check` makes within the QUICK tier when P/K is broken and the first run found no
+    // failing input (it passes `--tier thorough`). It must not take the thorough tier's minutes: it makes quick-sized
+    // passes over all streams (fresh random cases each pass) until the clock says stop (`--search-seconds N`, default 40).
+    let search = args.extra.get("search").map_or(false, |s| s == "1");
+    if search {
+        let cap = std::time::Duration::from_secs(args.extra.get("search-seconds").and_then(|s| s.parse().ok()).unwrap_or(40));
+        let started = std::time::Instant::now();
+        let stop = || started.elapsed() > cap;
+        let b = Budgets { n_valid: 300, n_redeclare: 120, n_mut: 900, n_junk: 150, n_pairs: 300, n_graph: 480, n_impl: 400 };
+        let mut passes = 0;
+        while !stop() && passes < 40 {
+            streams(&mut ctx, &mut rng, &b, &stop);
+            passes += 1;
+        }
+        ctx.rep.count("search-cut-by-clock");
+        ctx.rep.notes.push(format!("search run: {passes} pass(es) over the streams, stopped by the clock ({} s cap)", cap.as_secs()));
+    } else {
+        let b = Budgets {
+            n_valid: args.budget(300, 4000),
+            n_redeclare: args.budget(120, 1500),
+            n_mut: args.budget(900, 12000),
+            n_junk: args.budget(150, 2000),
+            n_pairs: args.budget(300, 3000),
+            n_graph: args.budget(480, 6000),
+            n_impl: args.budget(400, 5000),
+        };
+        streams(&mut ctx, &mut rng, &b, &|| false);
+    }
+
+    ctx.flush();
     rep.write(&args);
 }
